@@ -532,7 +532,7 @@ func replayFile(path string, hs []harness, pkgNames map[string]string) (bool, st
 	abs, _ := filepath.Abs(path)
 	cmd := exec.Command("go", "test", "-v", "-vet=off", "-count=1", "-run", "^TestVerifReplay$", "-timeout", "120s", "-overlay", ovPath, "./"+pkgDirOf(dir))
 	cmd.Dir = repoDir
-	cmd.Env = append(os.Environ(), "GOFLAGS=-mod=mod", "GOPROXY=off", "GOSUMDB=off", "GOTOOLCHAIN=local", "VERIF_REPLAY="+abs)
+	cmd.Env = append(os.Environ(), "GOFLAGS=-mod=readonly", "GOPROXY=off", "GOSUMDB=off", "GOTOOLCHAIN=local", "VERIF_REPLAY="+abs)
 	outb, _ := cmd.CombinedOutput()
 	out := string(outb)
 	if strings.Contains(out, "VERIF-ASSUME-FAILED") {
